@@ -17,10 +17,10 @@ if os.environ.get('VERIF_C03_NOFIX'):
     FIX = {'FixF3': 'FALSE', 'FixF15': 'FALSE'}
 
 
-def fam(name, adders, rot, counters, warm, init_open, clock, cap, max_extra=None):
+def fam(name, adders, rot, counters, warm, init_open, clock, cap, max_extra=None, warm_cell=1):
     total = sum(n for (_t, _c, n) in adders) + len(warm)
     return dict(name=name, adders=adders, rot=rot, counters=counters, warm=warm, init_open=init_open, clock=clock,
-                cap=cap, max_extra=max_extra or max(3, total))
+                cap=cap, max_extra=max_extra or max(3, total), warm_cell=warm_cell)
 
 
 def families(tier):
@@ -31,6 +31,8 @@ def families(tier):
         fam('rotation2', [('a1', 'c1', 1), ('a2', 'c1', 1)], ['r'], ['c1'], ['c1'], True, 2, 2),
         # growth: the record of the second counter does not fit into the mapping
         fam('growth2', [('a1', 'c1', 1), ('a2', 'c2', 1)], [], ['c1', 'c2'], ['c1'], True, 1, 0),
+        # saturation: the persisted value is one below its limit and two increments arrive
+        fam('saturate2', [('a1', 'c1', 1), ('a2', 'c1', 1)], [], ['c1'], ['c1'], True, 1, 2, warm_cell=14),
     ]
     big = [
         fam('rotation1x2', [('a1', 'c1', 2)], ['r'], ['c1'], ['c1'], True, 2, 2),
@@ -65,8 +67,8 @@ MCNAdds == %s
 def mc_cfg(f, spec='Spec', invariants=(), props=(), view=True, deadlock=False, fix=None):
     fx = fix or FIX
     s = 'SPECIFICATION %s\nCONSTANTS\n Adders <- MCAdders\n Rotators <- MCRot\n CtrOf <- MCCtrOf\n NAdds <- MCNAdds\n' % spec
-    s += ' Counters = %s\n Warm = %s\n InitOpen = %s\n ClockSpan = %d\n Capacity = %d\n CapNew = 4\n GrowBy = 4\n MaxExtra = %d\n MaxCell = 15\n' % (
-        sset(f['counters']), sset(f['warm']), 'TRUE' if f['init_open'] else 'FALSE', f['clock'], f['cap'], f['max_extra'])
+    s += ' Counters = %s\n Warm = %s\n InitOpen = %s\n ClockSpan = %d\n Capacity = %d\n CapNew = 4\n GrowBy = 4\n MaxExtra = %d\n MaxCell = 15\n WarmCell = %d\n' % (
+        sset(f['counters']), sset(f['warm']), 'TRUE' if f['init_open'] else 'FALSE', f['clock'], f['cap'], f['max_extra'], f['warm_cell'])
     s += ' FixF3 = %s\n FixF15 = %s\n' % (fx['FixF3'], fx['FixF15'])
     if invariants:
         s += 'INVARIANTS ' + ' '.join(invariants) + '\n'
@@ -103,7 +105,7 @@ def schedule_of(states):
 def run_cfg(f, rid, schedule, finish, seed, trace=True):
     return dict(id=rid, family=f['name'], adders=[dict(name=a[0], ctr=a[1], n=a[2]) for a in f['adders']], rotators=f['rot'],
                 counters=f['counters'], warm=f['warm'], initOpen=f['init_open'], clock2=(f['clock'] == 2), capacity=f['cap'],
-                maxExtra=f['max_extra'], schedule=schedule, finish=finish, seed=seed, trace=trace)
+                maxExtra=f['max_extra'], warmCell=f['warm_cell'], maxCell=15, schedule=schedule, finish=finish, seed=seed, trace=trace)
 
 
 SAFETY = ['TypeOK', 'UpperBound', 'NoDeadlock', 'NoFault', 'Quiescent', 'Flushed', 'PtrFresh']
@@ -241,6 +243,7 @@ def run(ctx):
             o2 = {x: o[x] for x in ('run', 'i', 't', 'st', 'ptr', 'cur', 'open', 'cell1', 'cell2', 'begun', 'done', 'faulted', 'fileopen')}
             o2['ntasks'] = len(runs[k - 1]['adders']) + len(runs[k - 1]['rotators'])
             o2['final'] = False
+            o2['sat'] = runs[k - 1]['warmCell'] != 1
             lines.append(o2)
             index.append(k)
         if res['status'] == 'ok':
